@@ -9,6 +9,8 @@ import (
 	"math/bits"
 	"sort"
 	"strings"
+	"sync"
+	"sync/atomic"
 )
 
 type SortKind uint8
@@ -132,14 +134,41 @@ type Ctx struct {
 	False  *Term
 }
 
+// Constants are interned engine-wide (negative ids), so that values computed once by package initialisers can be
+// shared by every path's term context.
+type constKey struct {
+	s Sort
+	v uint64
+}
+
+var (
+	constTab sync.Map
+	constSeq int64 = 1
+)
+
+func globalConst(s Sort, v uint64) *Term {
+	k := constKey{s, v}
+	if t, ok := constTab.Load(k); ok {
+		return t.(*Term)
+	}
+	t := &Term{ID: int(-atomic.AddInt64(&constSeq, 1)), Op: OpConst, S: s, Val: v}
+	if old, loaded := constTab.LoadOrStore(k, t); loaded {
+		return old.(*Term)
+	}
+	return t
+}
+
 func NewCtx() *Ctx {
 	c := &Ctx{tab: map[termKey]*Term{}, ufs: map[string]string{}}
-	c.True = c.mk(OpConst, BoolSort, nil, 1, 0, 0, "")
-	c.False = c.mk(OpConst, BoolSort, nil, 0, 0, 0, "")
+	c.True = globalConst(BoolSort, 1)
+	c.False = globalConst(BoolSort, 0)
 	return c
 }
 
 func (c *Ctx) mk(op Op, s Sort, args []*Term, val uint64, x1, x2 int, name string) *Term {
+	if op == OpConst {
+		return globalConst(s, val)
+	}
 	k := termKey{op: op, s: s, val: val, x1: x1, x2: x2, name: name, a0: -1, a1: -1, a2: -1}
 	if len(args) > 0 {
 		k.a0 = args[0].ID
